@@ -77,6 +77,12 @@ func jobsFor(id, tier string) []*Job {
 	}
 	_ = wmk
 	switch id {
+	case "C13":
+		kmax := 2
+		if thorough {
+			kmax = 3
+		}
+		add(split(wmk("try", "zzverifw.H_C13_try", ints(1, kmax)))...)
 	case "C18":
 		var eqp [][]int
 		for a := 0; a < 14; a++ {
@@ -160,6 +166,8 @@ func assumptionsFor(id string) []string {
 		"harness oracles written from the property statement and docs (DESIGN.md Appendix B)",
 	}
 	switch id {
+	case "C13":
+		return append(common, "steps are methods of a receiver object, literal calls, and operator calls written in chain form (.+(n)); step names are ones the Either wrapper does not define itself (DESIGN.md Appendix B, C13 domain note) — names the wrapper's own prototype chain answers (A, val, ==, S, p, keys ...) never reach the _missing proxy and are outside the domain", "failures are injected inside the callee (step(i) raises iff i == K); a raise during argument evaluation happens before the call and is not a failure of the step")
 	case "C18":
 		return append(common, "laws are asserted through parsed Pangaea programs (x == y, x < y, x <=> y, [x, y].max ...) in the bootstrapped world", "ordered kinds: int, float, str, Int.bear(...).new(n), booleans, Str.bear(...).new(s); equality kinds additionally: arrays, objects and bear children, maps, ranges, nil, functions, Either values, error values (as delivered by .err)")
 	case "C08":
@@ -185,6 +193,15 @@ func assumptionsFor(id string) []string {
 func boundsFor(id, tier string, jobs []*Job) map[string]interface{} {
 	b := map[string]interface{}{"tier": tier}
 	switch id {
+	case "C13":
+		if tier == "thorough" {
+			b["chain_length"] = "1..3 steps"
+		} else {
+			b["chain_length"] = "1..2 steps"
+		}
+		b["step_forms"] = "property call, literal call, operator call in chain form — all 3^k combinations (solver choices)"
+		b["failure"] = "K any value in [0, k] (0 = none); error kind one of ValueErr, TypeErr, ZeroDivisionErr, NameErr, NoPropErr, AssertionErr"
+		b["accessors"] = "A, val, err, val?, err?, or, abandon, catch (matching and non-matching type), ignore"
 	case "C18":
 		b["payloads"] = "ints: any int64; floats: any 64-bit pattern; strs: pool of 4; containers: one symbolic int element/key/bound"
 		if tier == "thorough" {
@@ -237,6 +254,8 @@ func boundsFor(id, tier string, jobs []*Job) map[string]interface{} {
 
 func outsideFor(id string) []string {
 	switch id {
+	case "C13":
+		return []string{"infix spelling of operators on the wrapper (`v.try + 1` is not a `.f` step and does not go through the proxy)", "step names defined by the wrapper's own prototype chain", "chains longer than the bound", "errors raised while evaluating a step's arguments", "user-defined error types"}
 	case "C18":
 		return []string{"strings outside the pool (Str#<=> compares Go strings; content is concrete here)", "containers deeper than one level or longer than one element", "prototype objects themselves and bear applied to non-objects (excluded by the statement)", "cross-kind ordering (e.g. int vs float <)", "user-defined <=>"}
 	case "C08":
